@@ -950,6 +950,8 @@ def oracle(res, case, log):
                 if bad: break
             if bad:
                 res.violate('setup-initial-profile', 'node (%d,%d) after the first setup is not the described profile shifted/clamped' % bad[:2], d, bad[2], bad[3])
+            for reg in {classify_value(rp[e][i], minC, nAll) for e in range(E) for i in range(N)}:
+                res.count('described-value:' + reg)
             # bounds at t = 0: model.x after setup() and the first recorded profile, every component
             bounds_t0(res, case, d, op['x_setup'], rp, minC, nAll, 'after-setup', 'model.x after setup()')
             if log.get('rec0') is not None:
